@@ -351,7 +351,8 @@ def walk_names(rng, files, by_id):
 # Part 2 - the check
 # =============================================================================================
 THEOREMS = ["C27_merge_perm", "C27_split_perm", "C27_lookup_is_fold", "C27_drivers_agree",
-            "C27_flatten_perm_partial", "C27_checked_hypotheses_sound",
+            "C27_flat_respects_lookup", "C27_flatten_perm", "C27_flatten_split_perm",
+            "C27_flatten_perm_partial", "C27_flat_example", "C27_checked_hypotheses_sound",
             "C27_incompatible_is_order_dependent", "C27_example"]
 
 # the probe that found the defect repaired by 68a1661 (package file after a `within` file)
@@ -534,25 +535,83 @@ def enc_node(d, names, types, toks, sh):
     return sh.name("n", "Node %s %s" % (hdr, kids))
 
 
+def enc_path(p, names):
+    return cq_list([cq_pos(names(x)) for x in p])
+
+
+def enc_paths(ps, names):
+    return cq_list([enc_path(p, names) for p in ps])
+
+
+def collect_infos(d, toks, tabs, flags):
+    """token id -> decoded content, from the `i` fields of a dumped class (recursively)."""
+    for ai, key in ((0, "imp"), (1, "ext"), (2, "sym"), (4, "eq"), (5, "eq"), (6, "eq"), (7, "eq")):
+        for tok, info in zip(d["a"][ai], d["i"][ai] or []):
+            if key == "imp" and info.get("star"):
+                flags["star_import"] = True
+                continue
+            tabs[key][toks(tok)] = info
+    for c in d["c"]:
+        collect_infos(c, toks, tabs, flags)
+
+
 def encode_case(case, res, orders_for_coq):
     names, toks, sh = Interner(), Interner(), Sharing()
     types = Interner({"package": 1, "": 2})
-    files = []
+    files, ffiles = [], []
+    tabs = {"imp": {}, "ext": {}, "sym": {}, "eq": {}}
+    flags = {}
     for f in res["files"]:
         within = [names(x) for w in f["within"] for x in w]
         classes = cq_list(["(%s, %s)" % (cq_pos(names(c["n"])), enc_node(c, names, types, toks, sh)) for c in f["classes"]])
-        files.append("((%s, %s), %s)" % (cq_list([cq_pos(x) for x in within]), classes,
-                                        enc_node(f["tree"], names, types, toks, sh)))
+        fterm = "(%s, %s)" % (cq_list([cq_pos(x) for x in within]), classes)
+        ffiles.append(fterm)
+        files.append("(%s, %s)" % (fterm, enc_node(f["tree"], names, types, toks, sh)))
+        collect_infos(f["tree"], toks, tabs, flags)
     obs = []
     for o, r in orders_for_coq:
         obs.append("(%s, %s)" % (cq_list([cq_nat(i) for i in o]), enc_node(r["tree"], names, types, toks, sh)))
     body = "(%s, %s, %s, %s)" % (cq_bool(case["style"] == "compiler"), cq_bool(bool(case.get("compat"))),
                                  cq_list(files), cq_list(obs))
-    return "(" + "".join("let %s := %s in\n    " % d for d in sh.defs) + body + ")"
+    # ---- the flattening part ----
+    denv = "(DEnv %s %s %s %s)" % (
+        cq_list(["(%s, SymI %s %s %s %s %s)" % (cq_pos(t), cq_pos(names(i["n"])), enc_path(i["ty"], names),
+                                               cq_bool(i["b"]), enc_paths(i["v"], names), enc_paths(i["m"], names))
+                 for t, i in sorted(tabs["sym"].items())]),
+        cq_list(["(%s, (%s, %s))" % (cq_pos(t), enc_path(i["base"], names), enc_paths(i["m"], names))
+                 for t, i in sorted(tabs["ext"].items())]),
+        cq_list(["(%s, (%s, %s))" % (cq_pos(t), cq_pos(names(i["k"])), enc_path(i["t"], names))
+                 for t, i in sorted(tabs["imp"].items())]),
+        cq_list(["(%s, %s)" % (cq_pos(t), enc_paths(i, names)) for t, i in sorted(tabs["eq"].items())]))
+    nfiles = len(case["files"])
+    perms = [(o, r) for o, r in orders_for_coq if sorted(o) == list(range(nfiles))]
+    flats, info = [], {"compared": 0, "real_raises": 0, "unsupported": 0}
+    if perms and case.get("flatten", True) and case["models"]:
+        ref = perms[0][1].get("flat") or {}
+        for m in case["models"]:
+            fr = ref.get(m)
+            if fr is None:
+                continue
+            if flags.get("star_import"):
+                info["unsupported"] += 1
+                continue
+            if "vars" not in fr:
+                info["real_raises"] += 1
+                flats.append("(%s, None)" % enc_path(m.split("."), names))
+                continue
+            info["compared"] += 1
+            vs = cq_list(["(%s, %s, %s)" % (enc_path(v[0].split("."), names), cq_pos(names(v[1])), cq_bool(v[2]))
+                          for v in fr["vars"]])
+            flats.append("(%s, Some %s)" % (enc_path(m.split("."), names), vs))
+    fbody = "(%s, %s, %s, %s, %s)" % (denv, cq_bool(case["style"] == "compiler"), cq_list(ffiles),
+                                      cq_list([cq_list([cq_nat(i) for i in o]) for o, _ in perms]) if flats else "nil",
+                                      cq_list(flats))
+    term = "(" + "".join("let %s := %s in\n    " % d for d in sh.defs) + "(%s, %s))" % (body, fbody)
+    return term, info
 
 
-PREAMBLE = "From Coq Require Import List PArith.\nImport ListNotations.\nFrom PV Require Import Model.C27_merge.\n"
-CASE_TYPE = "bool * bool * list (file * node) * list (list nat * node)"
+PREAMBLE = "From Coq Require Import List PArith.\nImport ListNotations.\nFrom PV Require Import Model.C27_merge Model.C27_flat.\n"
+CASE_TYPE = "case * flat_case"
 
 
 def run_children(ctx, cases, workers=4):
@@ -637,6 +696,7 @@ def run(ctx):
 
     # ---- (b) correspondence model vs Tree.extend / file_to_tree, evaluated inside Coq ----
     enc, idx = [], []
+    flat_stats = {"compared": 0, "real_raises": 0, "unsupported": 0}
     for i, (c, r) in enumerate(zip(cases, results)):
         if "merged" not in r:
             continue
@@ -646,14 +706,30 @@ def run(ctx):
         if nperm > 8:
             keep = set(ctx.rng.sample(range(nperm), 8)) | set(range(nperm, len(allo)))
             allo = [x for j, x in enumerate(allo) if j in keep]
-        enc.append(encode_case(c, r, allo))
+        term, finfo = encode_case(c, r, allo)
+        for k, v in finfo.items():
+            flat_stats[k] += v
+        enc.append(term)
         idx.append(i)
     t_coq = time.time()
-    bad = core.coq_eval_cases(ctx, "merge", PREAMBLE, CASE_TYPE, enc, "check_case", shard=10)
+    bad = core.coq_eval_cases(ctx, "merge", PREAMBLE, CASE_TYPE, enc, "check_both", shard=10)
+    flat_bad = []
+    if bad:
+        # which half failed?  re-evaluate the failing cases with the merge check alone
+        bad2 = core.coq_eval_cases(ctx, "mergeonly", PREAMBLE, CASE_TYPE, [enc[j] for j in bad],
+                                   "(fun c => check_case (fst c))", shard=10)
+        merge_bad = list(bad) if bad2 is None else [bad[j] for j in bad2]
+        flat_bad = [idx[j] for j in bad if j not in merge_bad]
+        bad = merge_bad
     ctx.notes["timing_s"]["coq_cases"] = round(time.time() - t_coq, 1)
     mism = list(range(len(cases))) if bad is None else [idx[j] for j in bad]
     ctx.oblige("correspondence:model-vs-Tree.extend+file_to_tree", not mism,
                "mismatching cases: %s" % mism[:10])
+    ctx.oblige("correspondence:flat-model-vs-tree.flatten-variable-list", not flat_bad and bad is not None,
+               "mismatching cases: %s" % flat_bad[:10])
+    stats["flat_model"] = flat_stats
+    if flat_bad and not mism:
+        mism = flat_bad
     if mism and not ctx.violations:
         # the model no longer describes the code: search harder for a failing input on the implementation
         extra = [gen_case(ctx.rng) for _ in range(ctx.scaled(40, 200))]
@@ -669,7 +745,8 @@ def run(ctx):
     if mism and not ctx.violations:
         j = mism[0]
         core.violation(ctx, "correspondence-broken",
-                       {"correspondence": "Model/C27_merge.v check_case vs parser.file_to_tree + ast.Tree.extend",
+                       {"correspondence": "Model/C27_merge.v check_case vs parser.file_to_tree + ast.Tree.extend; "
+                                          "Model/C27_flat.v check_flat vs the variable list of tree.flatten",
                         "case": child_view(cases[j]),
                         "observed_files": results[j].get("files"),
                         "observed_first_merge": (results[j].get("merged") or [None])[0]}, no_input=True)
